@@ -269,7 +269,12 @@ class ActivityAnalyzer(transformer.Base):
 
   def visit_arg(self, node):
     """Mark function parameter (ast.arg) in scope. Requires QnResolver has run."""
-    node = self.generic_visit(node)
+    if self._track_annotations_only:
+      # Annotation pass, run in the defining scope: only the annotation is
+      # evaluated there; the parameter itself belongs to the function's scope.
+      if node.annotation is not None:
+        node.annotation = self._process_annotation(node.annotation)
+      return node
     if not anno.hasanno(node, anno.Basic.QN):
       return node
     qn = anno.getanno(node, anno.Basic.QN)
